@@ -751,8 +751,15 @@ class Decompiler(object):
         clause = ast.BoolOp(op=clausetype(), values=[expr])
         clause.explicit = explicit
         clause.endpos = endpos
-        decompiler.targets.setdefault(endpos, clause)
+        decompiler.set_target(endpos, clause)
         return clause
+
+    def set_target(decompiler, endpos, clause):
+        # the first clause that jumps to `endpos` marks where process_target stops; if that clause has been consumed
+        # meanwhile (it became the body of an if-expression), it is not on the stack any more and cannot stop anything
+        old = decompiler.targets.get(endpos)
+        if old is None or not any(old is item for item in decompiler.stack):
+            decompiler.targets[endpos] = clause
 
     def conditional_jump_none_impl(decompiler, endpos, negate):
         expr = decompiler.stack.pop()
@@ -772,7 +779,7 @@ class Decompiler(object):
         expr = decompiler.stack.pop()
         clause = ast.BoolOp(op=clausetype(), values=[expr])
         clause.endpos = endpos
-        decompiler.targets.setdefault(endpos, clause)
+        decompiler.set_target(endpos, clause)
         return clause
 
     def jump_if_none(decompiler, endpos):
